@@ -7,6 +7,7 @@ import pandas as pd
 from hypothesis import strategies as st
 
 import config_inject
+import core
 from core import Violation, guarded, require, scratch_dir
 
 ID = "C10"
@@ -172,7 +173,18 @@ def check(case):
     ext = ".parquet" if case["fmt"] == "parquet" else ".pin"
     neg = case["negative"]
     with scratch_dir() as tmp:
-        path = tmp / f"t{ext}"
+        # history: the same path was parsed before with another layout (stale per-path state must not leak)
+        path = core.scratch_root() / f"c10_shared{ext}"
+        pre_case = {**case, "fmt": case["fmt"]}
+        if neg == "none":
+            pre_header = ["SpecId", "Label", "ScanNr", "zzfeat", "Peptide", "Proteins"]
+            pre_cols = {"SpecId": ["a", "b"], "Label": [1, -1] if case["fmt"] != "parquet" else [1, -1], "ScanNr": [1, 2], "zzfeat": [0.5, 1.5],
+                        "Peptide": ["PEPA", "PEPB"], "Proteins": ["p", "q"]}
+            _write({**case, "n": 2}, pre_header, pre_cols, path)
+            try:
+                mokapot.read_pin([path], max_workers=1)
+            except Exception:  # noqa: BLE001  the prelude only creates history
+                pass
         hdr, label_override = header, None
         if neg == "missing":
             victim = names[REQUIRED[case["neg_pick"] % len(REQUIRED)]]
@@ -206,6 +218,17 @@ def check(case):
         require(set(p.spectrum_columns) == exp_spec and len(p.spectrum_columns) == len(exp_spec), "spectrum-key",
                 f"{p.spectrum_columns} != {sorted(exp_spec)}")
         require(set(p.spectrum_columns) <= set(sd.columns), "spectrum-key", "spectrum columns missing from the spectra frame")
+        for sc_ in p.spectrum_columns:
+            want = cols[sc_]
+            got_v = sd[sc_].tolist()
+            if isinstance(want[0], float):
+                require(all(abs(float(a) - b) <= 1e-12 * abs(b) for a, b in zip(got_v, want)), "spectrum-key-values",
+                        f"{sc_}: key values differ from the table's values (e.g. {got_v[0]!r} vs {want[0]!r})")
+            else:
+                require([str(a) for a in got_v] == [str(b) for b in want], "spectrum-key-values", f"{sc_}: key values differ from the table")
+        nkeys = len(set(zip(*[cols[c] for c in p.spectrum_columns])))
+        require(len(sd[list(p.spectrum_columns)].drop_duplicates()) == nkeys, "spectrum-key-values",
+                "number of distinct spectrum keys differs from the table's")
         reserved = set(names.values())
         nan_cols = {case["feats"][c]["name"] for c, _ in case["nans"]}
         exp_feats = [h for h in header if h not in reserved and h not in nan_cols]
